@@ -205,6 +205,9 @@ func decodeSpec(t term.T) runSpec {
 			"damage_type":    term.Str(e[8]),
 			"energy":         float64(10),
 		}
+		if term.Int(e[6]) == 0 {
+			delete(params, "hit_count") // 0 stands for a parameters section that leaves the hit count out (default 1)
+		}
 		st, err := structpb.NewStruct(params)
 		if err != nil {
 			panic(err)
